@@ -110,7 +110,22 @@ func errShape(v Value) (types.Type, Value, bool) {
 	return iv.Typ, iv.V, true
 }
 
+// opaqueErrID: identity of an error returned by a modular call (its class is symbolic).
+func opaqueErrID(v Value) (int, bool) {
+	if iv, ok := v.(VIface); ok {
+		if a, ok := iv.V.(VAbs); ok && a.Kind == "sentinel" {
+			if s, _ := a.Data.(string); strings.HasPrefix(s, "opaque error") {
+				return a.ID, true
+			}
+		}
+	}
+	return 0, false
+}
+
 func (env *rEnv) errIs(v Value, pkg, name string) Term {
+	if id, ok := opaqueErrID(v); ok {
+		return env.post.declare(fmt.Sprintf("err.%d.is.%s", id, name), SBool)
+	}
 	t, _, ok := errShape(v)
 	if !ok {
 		return TFalse
@@ -119,6 +134,9 @@ func (env *rEnv) errIs(v Value, pkg, name string) Term {
 }
 
 func (env *rEnv) errIsSentinel(v Value, name string) Term {
+	if id, ok := opaqueErrID(v); ok {
+		return env.post.declare(fmt.Sprintf("err.%d.is.%s", id, sanitize(name)), SBool)
+	}
 	iv, ok := v.(VIface)
 	if !ok {
 		return TFalse
